@@ -150,13 +150,13 @@ package litefs
 //@   ensures   dbWF(db) && otherDBsKept(db) && storesKept()
 //@ func (db *DB) WriteLTXFileAt
 //@   requires  dbWF(db) && r != nil
-//@   ensures   dbWF(db) && otherDBsKept(db) && storesKept()
+//@   ensures   dbWF(db) && otherDBsKept(db) && storesKept() && (old(walKeysPositive(db)) ==> walKeysPositive(db))
 //@ func (db *DB) ApplyLTXNoLock
 //@   requires  dbWF(db)
 //@   ensures   dbWF(db) && otherDBsKept(db) && storesKept()
 
 //@ func (s *Store) restoreDBFromBackup [C14]
-//@   requires  storeBackupWF(s) && ctx != nil
+//@   requires  storeBackupWF(s) && ctx != nil && s.Exit != nil && storeDBCountMetric != nil
 //@   ghost stage int = 0
 //@   ghost rcClosed bool = false
 //@   ghost unlocked bool = false
